@@ -198,6 +198,29 @@ def small_for(kind, x0, x1):
     return True
 
 
+_SHADOW = {}
+SHADOW_VALUES = ((3, 1), (0, 0))
+
+
+def shadow_ok(conv):
+    """the same five assertions on concrete sample documents, executed by CPython itself (outside the tracer), once per
+    process and engine.  CrossHair 0.0.110 executes the in-place operators `|=` and `-=` on a real set as a rebinding
+    (measured: the set object stays unchanged under tracing), so an in-place update of host data through them is
+    invisible to the symbolic run; this concrete pass closes that hole for the operators, the symbolic pass covers
+    the values."""
+    if conv not in _SHADOW:
+        with H.NoTracing():
+            ok = True
+            for a, b in SHADOW_VALUES:
+                for n in (0, 1, 2):
+                    try:
+                        ok = ok and check_statement(TEXT, ENG_CONV if conv else ENG_RAW, build(KIND, a, b, n)) == ''
+                    except Exception:
+                        ok = False
+            _SHADOW[conv] = ok
+    return _SHADOW[conv]
+
+
 def apply(x0: int, x1: int, n: int, conv: bool) -> bool:
     """
     pre: n in H.P('ns', (0, 1, 2))
@@ -205,6 +228,8 @@ def apply(x0: int, x1: int, n: int, conv: bool) -> bool:
     pre: H.fresh(x0, x1, n, conv)
     post: _
     """
+    if not shadow_ok(bool(conv)):
+        return H.done(False)
     host = build(KIND, x0, x1, n)
     why = check_statement(TEXT, ENG_CONV if conv else ENG_RAW, host)
     return H.done(why == '')
